@@ -15,7 +15,8 @@ CONSTANTS Prop, Full
 EHole == {f \in AllFrames : f.in = "E"}
 SHole == {f \in AllFrames : f.in = "S"}
 QuickE == {f \in EHole :
-             \/ f.k \in {"E.Add", "E.Assign", "E.Not", "E.Parenthesis", "S.Return", "S.If", "E.Power", "E.PreIncrement", "CP.VariableDefinition"} /\ f.hp = 1
+             \/ f.k \in {"E.Add", "E.Assign", "E.Not", "E.Parenthesis", "S.Return", "S.If", "E.Power", "E.PreIncrement", "CP.VariableDefinition",
+                          "SUP.VariableDefinition"} /\ f.hp = 1
              \/ f.k \in {"E.FunctionCall", "S.Revert"} /\ f.hs = (IF f.k = "E.FunctionCall" THEN 2 ELSE 1) /\ f.hp = 2
              \/ f.k \in {"E.Ternary", "E.ArraySubscript"} /\ f.hs = 2
              \/ f.k = "S.For" /\ f.hs = 2
